@@ -307,6 +307,30 @@ def check_sp(ctx, project, sp, rng, do_init):
                                   "after an in-place edit job.id is not the canonical hash of job.statepoint()",
                                   {"sp": now, "edit": v, "id": job.id, "expected": want})
                     break
+        # ... and for a handle opened by id in a session that first met the job through a mapping its caller went on
+        # to modify
+        if _state["ninit"] % 12 == 9 and isinstance(sp, dict):
+            import signac
+
+            arg = json.loads(json.dumps(sp))
+            pf = signac.Project(project.path)
+            pf.open_job(arg)
+            touched = False
+            for v in arg.values():
+                if isinstance(v, dict):
+                    v["zz_later"] = 1
+                    touched = True
+                elif isinstance(v, list):
+                    v.append("zz_later")
+                    touched = True
+            if touched:
+                ctx.monitor("edited_handle_id")
+                h = pf.open_job(id=expected)
+                now = model.plain(h.statepoint())
+                if h.id != model.model_id(now):
+                    ctx.violation("handle-presents-value-with-other-hash",
+                                  "a handle opened by id presents a state point that does not hash to its id",
+                                  {"id": h.id, "presented": now, "sp": sp, "handle": "by id after the caller changed its mapping"})
         # ... and through an edit that is refused because the destination id is taken
         if _state["ninit"] % 12 == 3 and isinstance(sp, dict) and "zz_edit" not in sp:
             blocker = project.open_job(dict(json.loads(json.dumps(sp)), zz_edit="taken")).init()
